@@ -500,6 +500,47 @@ fn drive(pid: &str, tier: &str, seed: u64) {
     }
   }
 
+  // 2c. COLLAPSE histories: everything outside one aligned subtree is punctured first (the retained
+  //     set shrinks to a single inner node), then inputs inside it - checked in full only at the end
+  //     of each phase, so the whole history is cheap enough for the quick tier
+  for (what, mask) in [("half tree", 0x01u8), ("4-leaf subtree", 0x3f), ("8-leaf subtree", 0x1f), ("2-leaf subtree", 0x7f)] {
+    if Instant::now() > r.deadline {
+      r.budget_hit = true;
+      break;
+    }
+    let ctx = match new_ctx(pid) {
+      Some(c) => c,
+      None => return,
+    };
+    let c = r.g.next() as u8 & mask;
+    let mut g1 = ctx.fresh.clone();
+    let mut order: Vec<u8> = Vec::new();
+    let mut outside: Vec<u8> = (0..=255u8).filter(|x| x & mask != c).collect();
+    r.g.shuffle(&mut outside);
+    let mut ok = true;
+    for x in outside {
+      if !r.punct(&mut g1, &order, x) {
+        ok = false;
+        break;
+      }
+      order.push(x);
+    }
+    if !ok {
+      continue;
+    }
+    stat(&format!("states.collapse.{}", what.replace(' ', "_")));
+    r.check(&ctx, &g1, &order, &[], true);
+    let mut inside: Vec<u8> = (0..=255u8).filter(|x| x & mask == c).collect();
+    r.g.shuffle(&mut inside);
+    for x in inside {
+      if !r.punct(&mut g1, &order, x) {
+        break;
+      }
+      order.push(x);
+      r.check(&ctx, &g1, &order, &[], true);
+    }
+  }
+
   // 3. long sequences up to complete puncturing
   let nseq = if q { 6 } else { 48 };
   for i in 0..nseq {
